@@ -54,9 +54,9 @@ Proof. unfold llen, len. intros ->. reflexivity. Qed.
 (* ---------------- io ---------------- *)
 Definition io_ok (e : env) (a : act) : env :=
   {| e_acts := a :: e_acts e; e_disk := apply_act (e_disk e) a;
-     e_fault := match e_fault e with Some (S n) => Some n | _ => None end; e_m := e_m e |}.
+     e_fault := match e_fault e with Some (S n) => Some n | _ => None end; e_fx := e_fx e; e_m := e_m e |}.
 Definition io_fail (e : env) (a : act) : env :=
-  {| e_acts := AFail a :: e_acts e; e_disk := e_disk e; e_fault := None; e_m := e_m e |}.
+  {| e_acts := AFail a :: e_acts e; e_disk := e_disk e; e_fault := None; e_fx := e_fx e; e_m := e_m e |}.
 
 Lemma io_char a e : is_delete a = false ->
   io a e = match e_fault e with Some O => (false, io_fail e a) | _ => (true, io_ok e a) end.
